@@ -1,7 +1,7 @@
 (* C08 — executable checkers run on what the implementation was observed to do.
    *_model_ok : the model (with the configuration extracted from the source) computes the same (correspondence)
    *_prop_ok  : the implementation's own output satisfies the property (oracle = Spec.v)       *)
-From G08 Require Export Cfg Spec ConnOps.
+From G08 Require Export Cfg Spec ConnOps Safety.
 Open Scope N_scope.
 
 Definition addr_eqb (x y : addr) : bool :=
@@ -23,7 +23,9 @@ Record rcase := {
 Definition consumed_of (total : nat) (rest : option str) : N :=
   match rest with Some r => N.of_nat (total - length r) | None => N.of_nat total end.
 
+(* a panic of ReadHeader is recovered by the harness and recorded as r_consumed = 99999 *)
 Definition rcase_model_ok (c : rcase) : bool :=
+  Bool.eqb (panics src_cfg (r_in c)) (r_consumed c =? 99999) &&
   match read_flat src_cfg (r_in c) with
   | Ok h rest => r_ok c && header_eqb h (r_hdr c) && (consumed_of (length (r_in c)) (Some rest) =? r_consumed c)
   | Err _ rest => negb (r_ok c) && (consumed_of (length (r_in c)) rest =? r_consumed c)
